@@ -2,6 +2,7 @@
 //!
 //! usage: ipt-verif <ID> <quick|thorough>
 //!        ipt-verif <ID> --replay <file>
+//!        ipt-verif <ID> --fuzz-artifact <file>   (C07, C08, C10, C18: decode a libFuzzer artifact and re-check it)
 //! env:   VERIF_SEED (default 1), VERIF_DIR (default /verif)
 
 use ipt_verif::engine::{self, RunOpts, Tier};
@@ -16,7 +17,41 @@ fn main() {
     }
     let id = args[1].to_uppercase();
     let seed: u64 = std::env::var("VERIF_SEED").ok().and_then(|s| s.trim().parse().ok()).unwrap_or(1);
-    let code = if args[2] == "--replay" {
+    let code = if args[2] == "--fuzz-artifact" {
+        // decode a libFuzzer artifact of this property's target, print the case and re-check it here
+        let data = std::fs::read(&args[3]).unwrap_or_default();
+        let mut st = engine::Stats::new(0);
+        macro_rules! go {
+            ($dec:path, $chk:path) => {{
+                let c = $dec(&data);
+                println!("case: {}", serde_json::to_string(&c).unwrap_or_default());
+                match engine::catch(|| $chk(&c, &mut st)) {
+                    Ok(Ok(())) => {
+                        println!("holds");
+                        0
+                    }
+                    Ok(Err(f)) => {
+                        println!("signature: {}\nexpected: {}\nobserved: {}", f.signature, f.expected, f.observed);
+                        1
+                    }
+                    Err(p) => {
+                        println!("panic: {}", p);
+                        1
+                    }
+                }
+            }};
+        }
+        match id.as_str() {
+            "C07" => go!(ipt_verif::decode::c07_case, props::c07::check_case),
+            "C08" => go!(ipt_verif::decode::c08_case, props::c08::fuzz_check),
+            "C10" => go!(ipt_verif::decode::c10_case, props::c10::fuzz_check),
+            "C18" => go!(ipt_verif::decode::c18_case, props::c18::check_case),
+            _ => {
+                eprintln!("no fuzz target for {}", id);
+                2
+            }
+        }
+    } else if args[2] == "--replay" {
         if args.len() < 4 {
             eprintln!("--replay needs a file");
             std::process::exit(2);
